@@ -1,3 +1,80 @@
-import Mwp.Model.Analysis
+/-
+  C06 — "never raises" facts, stated for the model.  Property theorems only; the work is in
+  Mwp/Lemmas/SyntaxThmsVars.lean (walkers are total), Mwp/Lemmas/DeltaGraphD.lean (the delta
+  graph is total under its invariant), Mwp/Props/C04.lean (choices), Mwp/Lemmas/RefineLoopFree.lean
+  (loop-free analysis) and Mwp/Lemmas/WriteSet.lean (corrections under the graph invariant).
+-/
+import Mwp.Lemmas.SyntaxThmsVars
+import Mwp.Lemmas.DeltaGraph
+import Mwp.Props.C04
+import Mwp.Lemmas.RefineLoopFree
+import Mwp.Lemmas.WriteSet
 namespace Mwp.Props.C06
+open Mwp
+
+/-- loop discovery never raises, on any tree -/
+theorem findLoops_never_raises (n : Node) : ∃ ls, Syntax.loopsN n = .ok ls :=
+  ⟨_, loopsN_eq_allLoops n⟩
+
+example : Syntax.loopsN (.compound (some [.while_ (.id "c") (.for_ none none none (.goto "l")),
+    .other "Pragma" none []])) = .ok [.while_ (.id "c") (.for_ none none none (.goto "l"))] := rfl
+
+/-- variables collection never raises -/
+theorem variables_never_raise (n : Node) : ∃ vs, Syntax.variables n = .ok vs := by
+  unfold Syntax.variables
+  rw [varsN_eq n]
+  exact ⟨_, rfl⟩
+
+example : Syntax.variables (.for_ (some (.assign "=" (.id "i") (.const "int" "0"))) (some (.id "n"))
+    none (.assign "=" (.id "y") (.id "x"))) = .ok ["n", "x", "y"] := by decide
+
+/-- the delta graph never raises, whatever the history -/
+theorem delta_graph_never_raises (ops : List DG.Op) : ∃ g, DG.run ops = .ok g := by
+  obtain ⟨g, h, _⟩ := DG.run_total ops
+  exact ⟨g, h⟩
+
+example : DG.run [.insert [(0, 0)], .insert [(1, 0)], .insert [(2, 0)], .fuse,
+    .insert [(0, 1), (1, 5)], .insert []] =
+      .ok [(1, []), (0, [([], [])]), (2, [([(0, 1), (1, 5)], [])])] := by rfl
+
+/-- building the choice object never raises on well-formed infinity sequences -/
+theorem choices_never_raise (domain : List Nat) (n : Nat) (inf : List Choices.Seq)
+    (hd : domain.Nodup) (hne : domain ≠ [])
+    (hwf : ∀ s ∈ inf, Choices.WFSeq domain n s) : ∃ c, Choices.generate domain n inf = .ok c := by
+  obtain ⟨c, h, _⟩ := Mwp.Props.C04.generate_exact domain n inf hd hne hwf
+  exact ⟨c, h⟩
+
+example : ∃ c, Choices.generate [0, 1, 2] 2 [[(0, 0)], [(1, 0), (2, 1)]] = .ok c :=
+  choices_never_raise [0, 1, 2] 2 [[(0, 0)], [(1, 0), (2, 1)]] (by decide) (by decide) (by
+    intro s hs
+    simp only [List.mem_cons, List.not_mem_nil, or_false] at hs
+    rcases hs with rfl | rfl <;> exact ⟨by decide, by decide⟩)
+
+/-- the analysis of a loop-free supported statement never raises -/
+theorem loopfree_compute_never_raises (node : Node) (cmd : Spec.Cmd)
+    (hd : Spec.desugar node = some cmd) (hlf : cmd.loopFree = true)
+    (q : Bool) (idx : Nat) (dg : DG.Graph)
+    (hn : Refine.namesOk node = true) (hc : Refine.castOk node = true) :
+    ∃ out, Analysis.compute q idx dg node = .ok out := by
+  obtain ⟨out, h, _⟩ := compute_refines_loopfree_partial node cmd hd hlf q idx dg hn hc
+  exact ⟨out, h⟩
+
+example : ∃ out, Analysis.compute false 0 []
+    (.compound (some [.assign "=" (.id "x") (.binop "+" (.id "y") (.id "x")),
+      .ifs (.id "c") (some (.assign "=" (.id "y") (.id "x"))) none])) = .ok out :=
+  loopfree_compute_never_raises _ _
+    (by simp [Spec.desugar, Spec.desugarL, Spec.desugarO, Node.rmCast, Spec.atomOf]; rfl)
+    (by decide) _ _ _ (by decide) (by decide)
+
+/-- the corrections never raise when the delta graph satisfies its invariant (always true in
+    the analysis: the graph is only ever built by `insertNode`/`fusion` from the empty graph) -/
+theorem while_correction_never_raises (r : Relation) (g : DG.Graph) (hg : DG.GInv g) :
+    ∃ r' g', Relation.whileCorrection r g = .ok (r', g') ∧ DG.GInv g' :=
+  WriteSet.whileCorrection_total r g hg
+
+example : ∃ r' g', Relation.whileCorrection ⟨["x", "y"],
+    [[[⟨.w, [(0, 0)]⟩, ⟨.m, [(1, 0)]⟩], [⟨.p, [(2, 0)]⟩]], [[⟨.o, []⟩], [⟨.m, []⟩]]]⟩ [] =
+      .ok (r', g') ∧ DG.GInv g' :=
+  while_correction_never_raises _ [] DG.GInv.nil
+
 end Mwp.Props.C06
